@@ -102,6 +102,32 @@ def run(ctx):
     dseqs = [list(bits) for n in range(1, 7) for bits in itertools.product([False, True], repeat=n)] + \
             [[False] * n + t for n in (1, 2, 19, 20, 21) for t in ([], [True], [True, False])]
 
+    # state notifications through the real write_state_event (tap of hook H7) with the code's own MAX_STATE_COUNT:
+    # flapping values (A,B,A: a value that returns is a change again), repetition runs around the limit, several
+    # keys interleaved, and key/value spellings whose concatenations coincide ("a.b"+"c" vs "a"+"b.c")
+    wnotifs = []
+    wkeys = ["FileVersion", "ReadProxyAgentStatusFile", "a", "a.b", "a.b.c"]
+    wvals = ["Success", "Error", "b.c", "c", ""]
+    wnotifs.append([("FileVersion", v) for v in ("Error", "Success", "Error", "Success", "Success", "Error")])
+    wnotifs.append([("a.b", "c"), ("a", "b.c"), ("a.b", "c"), ("a", "b.c"), ("a.b.c", ""), ("a.b", "c")])
+    wnotifs.append([("k", "ok")] * 3 + [("k", "err")] * 2 + [("k", "ok")] * 2 + [("k", "err"), ("k", "ok"), ("k", "ok")])
+    for n in (119, 120, 121, 241):
+        wnotifs.append([("k", "x")] * n + [("k", "y"), ("k", "x"), ("k", "x")])
+    wnotifs.append([("k", "x")] * 100 + [("k", "y")] * 130)
+    for _ in range(60 if ctx.quick else 600):
+        ops = []
+        for _ in range(rng.randint(2, 7)):
+            k = rng.choice(wkeys)
+            if rng.random() < 0.5:      # flap between two values of one key
+                a, b = rng.sample(wvals, 2)
+                ops += [(k, a), (k, b)] * rng.choice([1, 2, 3]) + [(k, a)] * rng.choice([0, 1, 2])
+            else:
+                ops += [(k, rng.choice(wvals))] * rng.choice([1, 2, 3, 119, 120, 121])
+        wnotifs.append(ops)
+    # events of the monitor-loop polls: the same scripts as the P leg, plus flapping outcomes
+    qpolls = list(polls) + ["MHMHMH", "EHEHEH", "EMEMHB", "HMHHMMHEEH", "BMBMB", "H" * 121 + "MH", "E" * 125 + "H", "M" * 121 + "HM"]
+    qcal = ["EEE", "GGG", "MMM", "HHH", "BBB"]
+
     # ---------------- implementation ----------------
     lines = []
     for s in seqs + rnd:
@@ -114,6 +140,10 @@ def run(ctx):
         lines.append("D " + "".join("1" if b else "0" for b in s))
     for ps in polls:
         lines.append("P " + ps)
+    for ops in wnotifs:
+        lines.append("W " + " ".join("%s:%s" % kv for kv in ops))
+    for ps in qcal + qpolls:
+        lines.append("Q " + ps)
     # the poll-level leg writes /var/log/azure-proxy-agent/status.json: private mount namespace with a tmpfs
     import subprocess
     pr = subprocess.run(["unshare", "-m", "sh", "-c",
@@ -131,7 +161,11 @@ def run(ctx):
     off = ns + len(longs) + nN
     impl_D = [[int(c) for c in l] for l in out[off:off + len(dseqs)]]
     # two digits per step: in-memory status, status in the written status file (9 9 = the step panicked)
-    raw_P = out[off + len(dseqs):]
+    raw_P = out[off + len(dseqs):off + len(dseqs) + len(polls)]
+    offw = off + len(dseqs) + len(polls)
+    raw_W = out[offw:offw + len(wnotifs)]
+    raw_Q = out[offw + len(wnotifs):]
+    assert len(raw_Q) == len(qcal) + len(qpolls)
     impl_P = [[int(c) for c in l[0::2]] if not l.startswith("!") else l for l in raw_P]
     file_P = [[int(c) for c in l[1::2]] if not l.startswith("!") else l for l in raw_P]
 
@@ -164,8 +198,69 @@ def run(ctx):
             [clist([pcode[c] for c in ps], "poll") for ps in polls[i:i + 40]]))
     model_P = [r for res in vplib.coq_eval(ctx, "From GPA Require Import Health.", exprs, shard=2, name="polls") for r in res]
 
+    exprs = []
+    for ops in wnotifs:
+        exprs.append("run_entries [] %s Consts.ext_max_state_count" % clist(["(%s, %s)" % (cb(k), cb(v)) for k, v in ops]))
+    model_W = vplib.coq_eval(ctx, "From GPA Require Import Health.", exprs, shard=20, name="wnotif")
+    exprs = []
+    for i in range(0, len(qpolls), 40):
+        exprs.append("map poll_event_counts %s" % clist([clist([pcode[c] for c in ps], "poll") for ps in qpolls[i:i + 40]]))
+    model_Q = [r for res in vplib.coq_eval(ctx, "From GPA Require Import Health.", exprs, shard=2, name="qpolls") for r in res]
+
     # ---------------- compare + property on the implementation's behaviour ----------------
     disagreements, failures = [], []
+    # state notifications through write_state_event
+    for ops, mo, raw in zip(wnotifs, model_W, raw_W):
+        if raw.startswith("!"):
+            raise RuntimeError("state-event leg could not run: " + raw)
+        if "9" in raw:
+            failures.append({"case": {"write_state_event notifications": ops[:raw.index("9") + 1]}, "why": "write_state_event panicked at notification %d" % raw.index("9"), "impl": raw})
+            continue
+        keep = [i for i, c in enumerate(raw) if c != "?"]        # '?' = the log file was rolled during the step
+        multi = [i for i in keep if raw[i] not in "01"]
+        if multi:
+            failures.append({"case": {"write_state_event notifications": ops[:multi[0] + 1]}, "why": "notification %d was emitted %s times" % (multi[0], raw[multi[0]]), "impl": raw})
+            continue
+        io = [c == "1" for c in raw]
+        if len(keep) == len(raw):
+            if mo != io:
+                first = next(i for i in range(len(io)) if mo[i] != io[i])
+                disagreements.append({"case": {"write_state_event notifications": ops[:first + 1]}, "model": mo[:first + 1], "impl": io[:first + 1]})
+            why = prop_check_notify(ops, io, 120)
+            if why:
+                failures.append({"case": {"write_state_event notifications (key, value) in order, MAX_STATE_COUNT as in the code": ops}, "why": why, "impl": "".join("1" if b else "0" for b in io)})
+    # events per poll: lines appended to the extension's log by the poll, minus the plain lines a poll of that
+    # kind writes (calibrated on the second and third of three equal polls, which emit nothing: 3 < 120)
+    base, q_notes = {}, []
+    for ps, raw in zip(qcal, raw_Q[:len(qcal)]):
+        if raw.startswith("!no-"):
+            raise RuntimeError("poll-event leg could not run: " + raw)
+        c = raw.split(",")
+        if len(c) == 3 and c[1] == c[2] and c[1].isdigit():
+            base[ps[0]] = int(c[1])
+        else:
+            q_notes.append("poll-event calibration unstable for kind %s: %s" % (ps[0], raw))
+    q_compared = 0
+    for ps, mo, raw in zip(qpolls, model_Q, raw_Q[len(qcal):]):
+        if raw.startswith("!no-"):
+            raise RuntimeError("poll-event leg could not run: " + raw)
+        c = raw.split(",")
+        io = []
+        for kind, x in zip(ps, c):
+            if kind in "IFX":
+                io.append(0 if x == "0" else None)
+            elif x.isdigit() and kind in base:
+                io.append(int(x) - base[kind])
+            else:
+                io.append(None)
+        q_compared += 1
+        bad = [i for i in range(len(io)) if io[i] is not None and io[i] != mo[i]]
+        if bad:
+            i = bad[0]
+            disagreements.append({"case": {"polls": ps[:i + 1], "what": "number of state events emitted by each poll (report_proxy_agent_aggregate_status -> write_state_event)"},
+                                  "model": mo[:i + 1], "impl": io[:i + 1]})
+    for n in q_notes:
+        ctx.notes.append(n)
     for s, mo, io in zip(dseqs, model_D, impl_D):
         if mo != io:
             disagreements.append({"case": {"from_default": True, "obs": s}, "model": mo, "impl": io})
@@ -213,13 +308,13 @@ def run(ctx):
             if why:
                 failures.append({"case": {"max": mx, "ops": ops}, "why": why, "impl": io})
 
-    total = len(allS) + len(longs) + len(notifs) + len(dseqs) + len(polls)
-    distinct = len({tuple(s) for s in allS if any(s) and not all(s)}) + len(longs) + len({(mx, tuple(o)) for mx, o in notifs}) + len(set(polls))
+    total = len(allS) + len(longs) + len(notifs) + len(dseqs) + len(polls) + len(wnotifs) + len(qpolls)
+    distinct = len({tuple(s) for s in allS if any(s) and not all(s)}) + len(longs) + len({(mx, tuple(o)) for mx, o in notifs}) + len(set(polls)) + len({tuple(o) for o in wnotifs}) + len(set(qpolls))
     ctx.coverage.update({
         "evaluations": total,
         "distinct_nontrivial": distinct,
         "traces_validated_against_impl": total - len(disagreements),
-        "rule": "all boolean observation sequences up to length %d (exhaustive) + random sequences with failing stretches of 18..22/40 + long runs of 19/20/21/39/9999/10000/10001/25000 equal observations followed by every tail up to length 3 + notification scripts (max in {1,2,3,5,120}) + sequences started from StatusState::default() + monitor-loop level scripts (each poll = unreadable / garbage / version-mismatch / healthy aggregate status file, run through the real report_proxy_agent_aggregate_status); non-trivial = sequence with both outcomes (or a long run / a notification script), distinct by content" % maxlen,
+        "rule": "all boolean observation sequences up to length %d (exhaustive) + random sequences with failing stretches of 18..22/40 + long runs of 19/20/21/39/9999/10000/10001/25000 equal observations followed by every tail up to length 3 + notification scripts (max in {1,2,3,5,120}) + sequences started from StatusState::default() + monitor-loop level scripts (each poll = unreadable / garbage / version-mismatch / healthy aggregate status file, run through the real report_proxy_agent_aggregate_status) + state-notification scripts through the real write_state_event (flapping values, runs of 119/120/121/241, colliding key/value spellings; emission observed as the marker message in the extension log) + number of state events per poll for the poll scripts and flapping poll outcomes (log lines per poll, calibrated); non-trivial = sequence with both outcomes (or a long run / a notification script), distinct by content" % maxlen,
         "exhaustive": False,
         "samples": [
             {"obs": "".join("1" if b else "0" for b in rnd[0]), "impl": impl_S[len(seqs)], "model": model_S[len(seqs)]},
@@ -227,7 +322,7 @@ def run(ctx):
             {"notify": notifs[0], "impl": impl_N[0], "model": model_N[0]},
             {"polls": polls[3], "impl": impl_P[3], "model": model_P[3]},
         ],
-        "input_distribution": {"exhaustive_sequences": len(seqs), "random_sequences": len(rnd), "long_runs": len(longs), "notification_scripts": len(notifs), "default_start_sequences": len(dseqs), "poll_level_scripts": len(polls),
+        "input_distribution": {"exhaustive_sequences": len(seqs), "random_sequences": len(rnd), "long_runs": len(longs), "notification_scripts": len(notifs), "default_start_sequences": len(dseqs), "poll_level_scripts": len(polls), "write_state_event_scripts": len(wnotifs), "poll_event_scripts": len(qpolls), "poll_event_calibration": base,
                                "error_outputs_seen": sum(o.count(2) for o in impl_S) + sum(o.count(2) for o in impl_R)},
     })
     ctx.assumptions += [
